@@ -60,8 +60,26 @@ func (m *SimMsg) Decode(b []byte) (uint64, error) {
 
 var errHandlerRefused = errors.New("handler refused message")
 
+// padByte is the content every padding byte must have: a message whose bytes were overwritten after it was
+// framed (or that was assembled from the wrong stretch of the stream) does not satisfy it.
+func padByte(from, seq uint32, i int) byte { return byte(seq*31 + uint32(i)*7 + from) }
+
+func makePad(from, seq uint32, n int) []byte {
+	p := make([]byte, n)
+	for i := range p {
+		p[i] = padByte(from, seq, i)
+	}
+	return p
+}
+
 func (m *SimMsg) Handle(ctx *gnet.MessageContext, state interface{}) error {
 	Yield("handle")
+	for i, b := range m.Pad {
+		if b != padByte(m.From, m.Seq, i) {
+			logEventR(evCorrupt, ctx.Addr, ctx.ConnID, uint64(m.From), uint64(m.Seq), fmt.Sprintf("padding byte %d of %d is %#x, sent %#x", i, len(m.Pad), b, padByte(m.From, m.Seq, i)))
+			break
+		}
+	}
 	logEvent(evDelivered, ctx.Addr, ctx.ConnID, uint64(m.From), uint64(m.Seq))
 	if m.Bad != 0 {
 		return errHandlerRefused
@@ -89,6 +107,7 @@ const (
 	evDisconnect
 	evConnectFail
 	evDelivered
+	evCorrupt
 )
 
 type event struct {
@@ -97,6 +116,7 @@ type event struct {
 	id    uint64
 	a, b  uint64
 	afterShutdownReturned bool
+	reason string
 }
 
 var (
@@ -118,13 +138,39 @@ func logEvent(kind int, addr string, id, a, b uint64) {
 }
 
 //go:norace
+func logEventR(kind int, addr string, id, a, b uint64, reason string) {
+	if nEvents < len(events) {
+		events[nEvents] = event{kind: kind, addr: addr, id: id, a: a, b: b, afterShutdownReturned: shutdownReturned, reason: reason}
+		nEvents++
+	}
+}
+
+// deliveredFor counts the messages delivered so far from addr, and whether that connection has been disconnected.
+//
+//go:norace
+func deliveredFor(addr string) (n int, disconnected bool) {
+	for i := 0; i < nEvents; i++ {
+		if events[i].addr != addr {
+			continue
+		}
+		switch events[i].kind {
+		case evDelivered:
+			n++
+		case evDisconnect, evConnectFail:
+			disconnected = true
+		}
+	}
+	return
+}
+
+//go:norace
 func worldReset() {
 	nEvents = 0
 	shutdownCalled, shutdownReturned, runReturned = false, false, false
 	runErr = nil
 	actorsDone = [64]bool{}
 	nActorsG = 0
-	dialRefused, peerCloses, peerAborts, peerStalls, badMsgs, garbageMsgs = 0, 0, 0, 0, 0, 0
+	dialRefused, peerCloses, peerAborts, peerStalls, badMsgs, garbageMsgs, streamCuts = 0, 0, 0, 0, 0, 0, 0
 }
 
 //go:norace
@@ -133,7 +179,7 @@ func bump(p *int) { *p++ }
 //go:norace
 func readInt(p *int) int { return *p }
 
-var dialRefused, peerCloses, peerAborts, peerStalls, badMsgs, garbageMsgs int
+var dialRefused, peerCloses, peerAborts, peerStalls, badMsgs, garbageMsgs, streamCuts int
 
 //go:norace
 func setFlag(p *bool) { *p = true }
@@ -192,11 +238,21 @@ const (
 	psGarbage      // write a frame with an unknown message id
 	psClose
 	psAbort
+	// framing profile
+	psStream    // n messages with padding, written as one byte string cut into pieces at arbitrary offsets
+	psBadLenLow // length prefix below the minimum
+	psBadLenBig // length prefix above the configured maximum (including values within 4 of 2^32)
+	psShortBody // known id, body too short to decode
+	psTrailing  // known id, body followed by extra bytes inside the frame
+	psHalfFrame // half a frame, then EOF
+	psGoodAfter // one more well-formed message (after a bad frame it must not be delivered)
 )
 
 type peerStep struct {
 	kind int
 	n    int
+	cuts []int // psStream: relative cut positions in per-mille of the byte string
+	pad  []int // psStream: padding length per message
 }
 
 type connPlan struct {
@@ -213,6 +269,7 @@ type scenario struct {
 	shutdownWait int
 	earlyStart   bool // actors may run before the pool is listening
 	decisions    int
+	framing      bool // C22 profile
 }
 
 var (
@@ -220,7 +277,82 @@ var (
 	outAddrs = []string{"10.0.2.1:7000", "10.0.2.2:7000", "10.0.2.3:7000"}
 )
 
+// genFraming is the scenario of the C22 profile: well-behaved peers stream long message sequences cut at arbitrary
+// offsets into a pool whose handler is scheduled like every other goroutine (so decoded messages queue up behind
+// it), optionally ending in one malformed frame; nobody disconnects or shuts down until everything sent has been
+// delivered or the connection is gone.
+func genFraming(c *sim.Ctx) *scenario {
+	t := c.T
+	sc := &scenario{framing: true}
+	cfg := gnet.NewConfig()
+	cfg.Address = "10.0.0.1"
+	cfg.Port = 6000
+	cfg.MaxOutgoingConnections = 1
+	cfg.MaxIncomingConnections = 3
+	cfg.MaxConnections = 4
+	cfg.ConnectionWriteQueueSize = 4
+	cfg.SendResultsSize = 16
+	cfg.ReadTimeout = 0
+	cfg.WriteTimeout = 0
+	cfg.MaxOutgoingMessageLength = 4096
+	cfg.MaxIncomingMessageLength = 4096
+	sc.cfg = cfg
+	// one observer that never changes anything
+	sc.callers = [][]op{{{kind: opSize}, {kind: opGetConns}, {kind: opDrain}}}
+	nIn := t.Range("f-conns", 1, 2)
+	for i := 0; i < nIn; i++ {
+		sc.incoming = append(sc.incoming, inAddrs[i])
+		var p connPlan
+		n := t.Range("f-steps", 2, 8)
+		for j := 0; j < n; j++ {
+			st := peerStep{kind: psStream, n: t.Range("f-burst", 1, 8)}
+			for k := 0; k < st.n; k++ {
+				st.pad = append(st.pad, []int{0, 3, 40, 300, 1200}[t.Pick("f-pad", 3, 2, 3, 2, 1)])
+			}
+			switch t.Pick("f-cutstyle", 2, 3, 2, 1) {
+			case 1: // a few random cuts
+				for k := 0; k < 1+t.Int("f-ncuts", 5); k++ {
+					st.cuts = append(st.cuts, 1+t.Int("f-cut", 999))
+				}
+				sort.Ints(st.cuts)
+			case 2: // many small pieces
+				for pm := 1 + t.Int("f-first", 40); pm < 1000; pm += 1 + t.Int("f-piece", 120) {
+					st.cuts = append(st.cuts, pm)
+				}
+			case 3: // one cut near the end (inside the last frame)
+				st.cuts = []int{990 - t.Int("f-tail", 200)}
+			}
+			p.script = append(p.script, st)
+		}
+		switch t.Pick("f-tail-kind", 6, 1, 1, 1, 1, 1, 1, 1) {
+		case 1:
+			p.script = append(p.script, peerStep{kind: psGarbage}, peerStep{kind: psGoodAfter})
+		case 2:
+			p.script = append(p.script, peerStep{kind: psBadLenLow, n: t.Int("f-low", 4)}, peerStep{kind: psGoodAfter})
+		case 3:
+			p.script = append(p.script, peerStep{kind: psBadLenBig, n: t.Int("f-big", 6)}, peerStep{kind: psGoodAfter})
+		case 4:
+			p.script = append(p.script, peerStep{kind: psShortBody}, peerStep{kind: psGoodAfter})
+		case 5:
+			p.script = append(p.script, peerStep{kind: psTrailing}, peerStep{kind: psGoodAfter})
+		case 6:
+			p.script = append(p.script, peerStep{kind: psHalfFrame})
+		case 7:
+			p.script = append(p.script, peerStep{kind: psBadMsg, n: 1}, peerStep{kind: psGoodAfter})
+		}
+		sc.plans = append(sc.plans, p)
+	}
+	sc.decisions = 200 + t.Int("decisions", 400)
+	if c.Tier == "thorough" {
+		sc.decisions += 400
+	}
+	return sc
+}
+
 func genScenario(c *sim.Ctx) *scenario {
+	if c.Property == "C22" {
+		return genFraming(c)
+	}
 	t := c.T
 	sc := &scenario{}
 	cfg := gnet.NewConfig()
@@ -310,6 +442,8 @@ type world struct {
 }
 
 type peerState struct {
+	goodSent int    // well-formed messages written before any malformed frame (framing profile)
+	bad      string // disconnect reason the first malformed frame must produce ("" = none sent)
 	conn     *simConn
 	sent     uint32
 	rx       []byte
@@ -384,13 +518,68 @@ func (w *world) runPeer(p *peerState, script []peerStep) {
 			bump(&peerStalls)
 		case psBadMsg:
 			bump(&badMsgs)
+			if p.bad == "" {
+				p.bad = errHandlerRefused.Error()
+			}
 			p.sent++
 			c.peerWrite(frame(&SimMsg{From: from, Seq: p.sent, Bad: 1}))
 		case psGarbage:
 			bump(&garbageMsgs)
+			if p.bad == "" {
+				p.bad = "Unknown message ID"
+			}
 			b := frame(&SimMsg{From: from, Seq: 0})
 			copy(b[4:], "XXXX")
 			c.peerWrite(b)
+		case psStream:
+			var b []byte
+			for i := 0; i < st.n; i++ {
+				p.sent++
+				b = append(b, frame(&SimMsg{From: from, Seq: p.sent, Pad: makePad(from, p.sent, st.pad[i%len(st.pad)])})...)
+			}
+			p.goodSent = int(p.sent)
+			last := 0
+			for _, pm := range st.cuts {
+				at := len(b) * pm / 1000
+				if at <= last || at >= len(b) {
+					continue
+				}
+				c.peerWrite(b[last:at])
+				last = at
+				bump(&streamCuts)
+				Yield("peer.cut")
+			}
+			c.peerWrite(b[last:])
+		case psBadLenLow:
+			p.bad = "Invalid message length"
+			c.peerWrite([]byte{byte(st.n % 4), 0, 0, 0, 'S', 'I', 'M', 'M', 0})
+		case psBadLenBig:
+			p.bad = "Invalid message length"
+			v := []uint32{4097, 0xFFFFFFFC, 0xFFFFFFFF, 0x7FFFFFFF, 0x80000000, 1 << 20}[st.n%6]
+			h := make([]byte, 4)
+			binary.LittleEndian.PutUint32(h, v)
+			c.peerWrite(append(h, 'S', 'I', 'M', 'M', 1, 2, 3, 4, 5))
+		case psShortBody:
+			p.bad = "Malformed message body"
+			b := frame(&SimMsg{From: from, Seq: p.sent + 1})
+			b = b[:len(b)-3]
+			binary.LittleEndian.PutUint32(b, uint32(len(b)-4))
+			c.peerWrite(b)
+		case psTrailing:
+			p.bad = "Message data did not fully decode to a message object"
+			b := append(frame(&SimMsg{From: from, Seq: p.sent + 1}), 9, 9)
+			binary.LittleEndian.PutUint32(b, uint32(len(b)-4))
+			c.peerWrite(b)
+		case psHalfFrame:
+			p.bad = "EOF"
+			b := frame(&SimMsg{From: from, Seq: p.sent + 1, Pad: makePad(from, p.sent+1, 40)})
+			c.peerWrite(b[:len(b)/2])
+			Yield("peer.halfframe")
+			c.peerClose(false)
+			bump(&peerCloses)
+			return
+		case psGoodAfter:
+			c.peerWrite(frame(&SimMsg{From: from, Seq: p.sent + 1}))
 		case psClose:
 			p.absorb(c.peerRead())
 			c.peerClose(false)
@@ -536,7 +725,7 @@ func (w *world) poolRun() {
 func (w *world) startPeer(p *peerState, script []peerStep) {
 	w.startActor("peer"+itoa(p.conn.id), func() {
 		w.runPeer(p, script)
-		p.done = true
+		setFlag(&p.done)
 	})
 }
 
@@ -698,7 +887,11 @@ func runPool(c *sim.Ctx) {
 	}
 	sc.cfg.DisconnectCallback = func(addr string, id uint64, reason gnet.DisconnectReason) {
 		Yield("cb.disconnect")
-		logEvent(evDisconnect, addr, id, 0, 0)
+		rs := ""
+		if reason != nil {
+			rs = reason.Error()
+		}
+		logEventR(evDisconnect, addr, id, 0, 0, rs)
 	}
 	sc.cfg.ConnectFailureCallback = func(addr string, solicited bool, err error) {
 		Yield("cb.connectfail")
@@ -739,6 +932,9 @@ func runPool(c *sim.Ctx) {
 	w.startActor("shutdown", func() {
 		for i := 0; i < sc.shutdownWait; i++ {
 			Yield("act wait")
+		}
+		for sc.framing && !w.framingSettled() {
+			Yield("act wait-for-delivery")
 		}
 		Yield("act shutdown")
 		setFlag(&shutdownCalled)
@@ -889,6 +1085,13 @@ func (w *world) checkRaces() bool {
 
 func (w *world) reportStuck(parked []parkedG) {
 	c := w.c
+	if w.sc.framing && !getFlag(&shutdownCalled) {
+		if st := w.framingStuck(); st != "" {
+			k := strings.Index(st, "|")
+			c.Violate(st[:k], "stream", "after the exploration budget and 10 simulated minutes of fair scheduling: %s", st[k+1:])
+			return
+		}
+	}
 	var stuck []string
 	for i := range w.sc.callers {
 		if len(w.results[i]) < len(w.sc.callers[i]) {
@@ -955,6 +1158,12 @@ func gnetGoroutines() string {
 
 func (w *world) finalChecks() {
 	c := w.c
+	if w.sc.framing {
+		w.framingChecks()
+		if c.Failed() {
+			return
+		}
+	}
 	// 1. results of every call
 	for ci, rs := range w.results {
 		for k, r := range rs {
@@ -1068,6 +1277,116 @@ func (w *world) finalChecks() {
 			lastSeq[e.id] = e.b
 		}
 	}
+}
+
+// framingSettled: every scripted peer has finished and everything it sent before a malformed frame has been
+// delivered, or its connection is gone; a malformed frame has led to the disconnect.
+//
+//go:norace
+func (w *world) framingSettled() bool {
+	if len(w.conns) < len(w.sc.incoming) {
+		return false
+	}
+	for _, p := range w.peers {
+		if !p.done {
+			return false
+		}
+		n, gone := deliveredFor(string(p.conn.remote))
+		if gone {
+			continue
+		}
+		if p.bad != "" || n < p.goodSent {
+			return false
+		}
+	}
+	return true
+}
+
+//go:norace
+func (w *world) framingStuck() string {
+	for _, p := range w.peers {
+		n, gone := deliveredFor(string(p.conn.remote))
+		if gone || !p.done {
+			continue
+		}
+		if n < p.goodSent {
+			return fmt.Sprintf("messages-not-delivered|connection %s: %d of %d well-formed messages delivered and the connection is still up", p.conn.remote, n, p.goodSent)
+		}
+		if p.bad != "" {
+			return fmt.Sprintf("no-disconnect-after-bad-frame|connection %s: a malformed frame (%s) did not lead to a disconnect", p.conn.remote, p.bad)
+		}
+	}
+	return ""
+}
+
+// framingChecks: the C22 oracle over the recorded history.
+func (w *world) framingChecks() {
+	c := w.c
+	evs := snapshotEvents()
+	for _, p := range w.peers {
+		addr := string(p.conn.remote)
+		var seqs []uint64
+		reason, disconnected, early := "", false, false
+		for _, e := range evs {
+			if e.addr != addr {
+				continue
+			}
+			switch e.kind {
+			case evCorrupt:
+				c.Violate("message-corrupted", "content", "connection %s delivered message %d with damaged content: %s", addr, e.b, e.reason)
+				return
+			case evDelivered:
+				seqs = append(seqs, e.b)
+			case evDisconnect:
+				if !disconnected {
+					reason, disconnected = e.reason, true
+				}
+			}
+		}
+		_ = early
+		for i, sq := range seqs {
+			if sq != uint64(i+1) {
+				c.Violate("delivery-sequence", "not-the-sent-sequence", "connection %s: the %d-th delivered message has sequence number %d (peer sent 1, 2, 3, ... in order): %v", addr, i+1, sq, seqs)
+				return
+			}
+		}
+		max := p.goodSent
+		if p.bad == errHandlerRefused.Error() {
+			max++
+		}
+		if len(seqs) > max {
+			c.Violate("delivery-sequence", "delivered-after-bad-frame", "connection %s delivered %d messages, only %d were sent before the malformed frame", addr, len(seqs), max)
+			return
+		}
+		c.CountN("probe.stream_messages_delivered", int64(len(seqs)))
+		switch {
+		case p.bad != "":
+			if !disconnected {
+				c.Violate("bad-frame", "no-disconnect", "connection %s: malformed frame (%s) did not disconnect", addr, p.bad)
+				return
+			}
+			if reason != p.bad && !(p.bad == "EOF" && strings.Contains(reason, "EOF")) && !strings.Contains(reason, "msgChan is closed or full") {
+				c.Violate("bad-frame", "reason:"+p.bad, "connection %s: malformed frame must disconnect with %q, the disconnect reason was %q", addr, p.bad, reason)
+				return
+			}
+			c.Count("probe.bad_frame_disconnected")
+		case disconnected:
+			// a peer that only sent well-formed messages and did not leave
+			if strings.Contains(reason, "msgChan is closed or full") {
+				c.Count("probe.receive_queue_overflow")
+			} else if reason != "Shutdown" && !strings.Contains(reason, "pool is closed") {
+				c.Violate("well-formed-stream-disconnected", reason, "connection %s sent only well-formed messages and was disconnected: %q (delivered %d of %d)", addr, reason, len(seqs), p.goodSent)
+				return
+			}
+		default:
+			if len(seqs) != p.goodSent {
+				c.Violate("delivery-sequence", "incomplete", "connection %s stayed up but only %d of %d messages were delivered", addr, len(seqs), p.goodSent)
+				return
+			}
+			c.Count("probe.stream_fully_delivered")
+		}
+	}
+	c.CountN("fault.stream_cuts", int64(readInt(&streamCuts)))
 }
 
 func (w *world) handedToPool(cn *simConn) bool {
